@@ -2,6 +2,7 @@ package symgo
 
 import (
 	"fmt"
+	"os"
 	"go/types"
 	"math/big"
 	"sort"
@@ -48,6 +49,7 @@ type Config struct {
 	InitPkgs  []string
 	NoInit    []string
 	HavocMax  int // max length of havoc'd byte slices
+	WallS     int // wall-clock budget of the whole harness run
 	Solver    string
 	Expect    map[string]bool // assertion ids expected to fail (known findings) - informational
 	Tier      string
@@ -186,6 +188,7 @@ type Interp struct {
 	strConsts map[string]*cellsArr
 	lenient   int
 	noMerge   bool
+	deadline  time.Time
 	choiceLog map[string]int
 	initDone  map[*ssa.Package]bool
 	trace     []traceEv
@@ -263,6 +266,9 @@ func NewInterp(prog *ssa.Program, cfg *Config) (*Interp, error) {
 	if cfg.HavocMax == 0 {
 		cfg.HavocMax = 64
 	}
+	if cfg.WallS == 0 {
+		cfg.WallS = 600
+	}
 	return in, nil
 }
 
@@ -275,7 +281,12 @@ func (in *Interp) Run() *Report {
 	if in.Cfg.PinChoice != nil {
 		in.work = [][]int64{in.Cfg.PinChoice}
 	}
+	in.deadline = t0.Add(time.Duration(in.Cfg.WallS) * time.Second)
 	for len(in.work) > 0 {
+		if time.Now().After(in.deadline) {
+			in.Rep.Incomplete = append(in.Rep.Incomplete, fmt.Sprintf("wall budget %ds exhausted after %d paths with %d work items left", in.Cfg.WallS, in.Rep.Paths, len(in.work)))
+			break
+		}
 		if in.Rep.Paths >= in.Cfg.MaxPaths {
 			in.Rep.Incomplete = append(in.Rep.Incomplete, fmt.Sprintf("maxpaths %d reached with %d work items left", in.Cfg.MaxPaths, len(in.work)))
 			break
@@ -326,6 +337,9 @@ func (in *Interp) runPath(prefix []int64) {
 	in.Rep.Paths++
 	defer func() {
 		in.Rep.Steps += in.steps
+		if Debug {
+			fmt.Fprintf(os.Stderr, "[%s] path %d done: decisions=%d steps=%d queries=%d work=%d\n", in.Cfg.Name, in.Rep.Paths, len(in.decisions), in.steps, in.S.Queries, len(in.work))
+		}
 		r := recover()
 		if r == nil {
 			in.Rep.PathsCompleted++
@@ -415,10 +429,19 @@ func (in *Interp) stackTrace() []string {
 // ---- solver interaction
 
 func (in *Interp) checkSat(extra ...*smt.Term) smt.Result {
+	if !in.deadline.IsZero() && time.Now().After(in.deadline) {
+		panic(&pathEnd{reason: "budget", msg: fmt.Sprintf("wall budget %ds exhausted inside a path", in.Cfg.WallS)})
+	}
 	as := append(append([]*smt.Term(nil), in.pc...), extra...)
+	t0 := time.Now()
 	r, _ := in.S.Check(as, nil)
+	if Debug && time.Since(t0) > time.Second {
+		fmt.Fprintf(os.Stderr, "[%s] slow query %.1fs -> %v at %s (pc=%d terms=%d)\n", in.Cfg.Name, time.Since(t0).Seconds(), r, in.where(), len(in.pc), in.C.NumTerms())
+	}
 	return r
 }
+
+var Debug = os.Getenv("VERIF_DEBUG") != ""
 
 func (in *Interp) assume(t *smt.Term) {
 	if t.IsTrue() {
